@@ -382,3 +382,6 @@ class MinimizerIMinuit(MinimizerBase):
         # invalidate cache
         self._did_fit = True
         self._invalidate_cache()
+
+        # Write back parameter values to nexus parameter nodes (MIGRAD's last call is not at the minimum):
+        self._func_wrapper_unpack_args(self.parameter_values)
